@@ -704,7 +704,7 @@ pub fn e2_spec(id: &str, tier: &str) -> Option<crate::e2::E2Spec> {
             let mut scens = Vec::new();
             for id in ["C16", "C17", "C18", "C24", "C08"] {
                 if let Some(sp) = e2_spec(id, "quick") {
-                    let stride = if !quick { 1 } else if id == "C16" || id == "C17" { 6 } else if id == "C08" || id == "C18" { 2 } else { 1 };
+                    let stride = if !quick { 1 } else if id == "C16" || id == "C17" { 8 } else if id == "C08" || id == "C18" { 3 } else { 1 };
                     for (i, mut sc) in sp.scens.into_iter().enumerate() {
                         if i % stride != 0 {
                             continue;
